@@ -264,11 +264,20 @@ CopyOp(kind) ==           \* copy.copy / copy.deepcopy / pickle round trip: cont
     /\ hist' = Append(hist, [op |-> kind, name |-> ""])
     /\ UNCHANGED <<res, cache, rid>>
 
+(* result.plot(...): reads the plotted quantity and, with errors=True, its error band (analysis.py:1590-1706) *)
+PlotOp(kind) ==
+    /\ Len(hist) < MaxHist
+    /\ cache' = Closure(res.iscsd, cache \cup (IF kind = "bode" THEN {"f", "cf", "cf_db", "cf_rad", "Hxy_mag_error", "Hxy_deg_error", "Hxy_rad_error"}
+                                              ELSE {"f", "psd", "asd", "coh", "csd", "cf", "Gxx_dev", "coh_dev", "Gxy_dev", "Hxy_dev", "Gxx"}))
+    /\ hist' = Append(hist, [op |-> "plot", name |-> kind])
+    /\ UNCHANGED <<res, rid>>
+
 Next == IF Scope = "grid" THEN FALSE
         ELSE \/ \E nm \in HistNames : Get(nm)
              \/ \E nm \in {"Gxy", "coh", "asd", "Hxy", "psd"} : MeasureOp(nm)
              \/ ToFrame
              \/ \E kd \in {"copy", "deepcopy", "pickle"} : CopyOp(kd)
+             \/ \E pk \in {"bode", "single"} : PlotOp(pk)
 Spec == Init /\ [][Next]_vars
 
 (***************************************************************************)
